@@ -392,6 +392,10 @@ func multilinePrintableName(info *NodeInfo) string {
 	if infoCopy.File != "" {
 		infoCopy.File = escapeForDot(filepath.Base(infoCopy.File))
 	}
+	if infoCopy.Objfile != "" {
+		// A node without function and file is named after its binary.
+		infoCopy.Objfile = escapeForDot(filepath.Base(infoCopy.Objfile))
+	}
 	return strings.Join(infoCopy.NameComponents(), `\n`) + `\n`
 }
 
